@@ -198,3 +198,10 @@ def concurrent_insert(d1, d2):
     if any(e['op'] == 'add' and e['key'] in a1 for e in d2):
         return True
     return False
+
+
+@vlib.classifier('merge-crash-site')
+def _cls_site(data, finding):
+    """exception class and the two innermost functions of the traceback, under the named output strategy"""
+    return (data.get('kind') == 'merge-raises' and data.get('site') == finding['param']['site']
+            and data.get('strategy', [None] * 3)[2] in finding['param']['output_strategy'])
